@@ -368,7 +368,7 @@ theorem pres_deleteRepWithCheck (v : Nat) (s : State) : Pres s (deleteRepWithChe
   · exact Pres.refl _
   · simp only []
     split
-    · exact (pres_repDisconnect _ _).trans ((pres_deleteRep _ _).trans (pres_modSlot _ _ _))
+    · exact (pres_repDisconnect _ _).trans ((pres_modSlot _ _ _).trans (pres_deleteRep _ _))
     · exact pres_repDisconnect _ _
 
 theorem pres_foldl {α : Type} (f : State → α → State) (hf : ∀ s a, Pres s (f s a)) :
